@@ -232,4 +232,4 @@ def shard(ctx: Ctx):
         sched = draw(st.lists(st.tuples(st.integers(0, 14), st.sampled_from(['sql', 'dbml'])), max_size=12))
         return s, draw(gen.styles()), hs, hd, sched
 
-    hyp_run(ctx, 'configs', cases(), lambda c: evaluate(c, ctx), 60 if quick else 2500)
+    hyp_run(ctx, 'configs', cases(), lambda c: evaluate(c, ctx), 60 if quick else 600)
